@@ -289,7 +289,7 @@ int main(int argc, char **argv) {
     U_THRESH = atof(arg_str(argc, argv, "--u", "1.0"));
     const char *one = arg_str(argc, argv, "--one", NULL);
     if (one) { op_t ops[16]; int p = 0, mem = 0; const char *q; if ((q = strstr(one, "pat="))) p = atoi(q + 4); if ((q = strstr(one, "mem="))) mem = atoi(q + 4); if ((q = strstr(one, "lwork="))) LW_OVERRIDE = atol(q + 6); if ((q = strstr(one, "f7="))) TIGHT7 = atoi(q + 3); if ((q = strstr(one, "f8="))) TIGHT8 = atoi(q + 3); int n = parse_ops(one, ops), fa;
-        if (!strcmp(PROP, "C18")) { pid_t pid = fork(); if (pid == 0) { PROBE_REF[mem] = run_probe(p, mem); *(unsigned long long *)vf_sh->note = PROBE_REF[mem]; _exit(0); } int st; waitpid(pid, &st, 0); unsigned long long ref = *(unsigned long long *)vf_sh->note;
+        if (!strcmp(PROP, "C18")) { pid_t pid = fork(); if (pid == 0) { PROBE_REF[mem] = run_probe(p, mem); *(unsigned long long *)vf_sh->note = PROBE_REF[mem]; _exit(0); } int st; waitpid(pid, &st, 0); vf_discard_log(pid); unsigned long long ref = *(unsigned long long *)vf_sh->note;
             run_history(p, mem, ops, n, one, &fa); if (run_probe(p, mem) != ref) viol("C18:probe-differs", one, "probe differs from the fresh-process probe"); }
         else run_history(p, mem, ops, n, one, &fa);
         out_stats(PROP, "\"runs\":1,\"violations\":%ld", G->viol); return G->viol ? 1 : 0; }
@@ -305,16 +305,16 @@ int main(int argc, char **argv) {
         for (int h = 0; h < 6; h++) {
             op_t ops[8]; char cs0[64]; snprintf(cs0, sizeof cs0, "pat=%d mem=1 ops=%s", P_, HS[h]); int nops = parse_ops(cs0, ops);
             /* smallest sufficient size by doubling */
-            long top = 2048; for (;; top *= 2) { fflush(NULL); pid_t pid = fork(); if (pid == 0) { const char *sv = PROP; PROP = "none"; LW_OVERRIDE = top; int fa; run_history(P_, 1, ops, nops, cs0, &fa); PROP = sv; _exit(fa < 0 ? 0 : 1); } int st; waitpid(pid, &st, 0); if ((WIFEXITED(st) && WEXITSTATUS(st) == 0) || top > (1L << 24)) break; }
+            long top = 2048; for (;; top *= 2) { fflush(NULL); pid_t pid = fork(); if (pid == 0) { const char *sv = PROP; PROP = "none"; LW_OVERRIDE = top; int fa; run_history(P_, 1, ops, nops, cs0, &fa); PROP = sv; _exit(fa < 0 ? 0 : 1); } int st; waitpid(pid, &st, 0); vf_discard_log(pid); if ((WIFEXITED(st) && WEXITSTATUS(st) == 0) || top > (1L << 24)) break; }
             top = top + top / 8;
             /* tight estimates: the smallest sp_ienv(7) and sp_ienv(8) with which the whole history still succeeds in a large workspace; with the default
                estimates (50 x nnz) an overlap of work arrays and L/U storage only hits unused storage and stays invisible */
             if (tight) { int m7 = 0, m8 = 0;
                 for (int which = 0; which < 2; which++) for (int f = 1; f <= 120; f++) { fflush(NULL); pid_t pid = fork();
                     if (pid == 0) { int fd = open("/dev/null", O_WRONLY); if (fd >= 0) dup2(fd, 2); const char *sv = PROP; PROP = "none"; LW_OVERRIDE = 1L << 20; TIGHT7 = which == 0 ? f : m7; TIGHT8 = which == 1 ? f : 0; int fa; run_history(P_, 1, ops, nops, cs0, &fa); PROP = sv; _exit(fa < 0 ? 0 : 1); }
-                    int st; waitpid(pid, &st, 0); if (WIFEXITED(st) && WEXITSTATUS(st) == 0) { if (which == 0) m7 = f; else m8 = f; break; } }
+                    int st; waitpid(pid, &st, 0); vf_discard_log(pid); if (WIFEXITED(st) && WEXITSTATUS(st) == 0) { if (which == 0) m7 = f; else m8 = f; break; } }
                 TIGHT7 = m7; TIGHT8 = m8;
-                if (m7 && m8) { top = 2048; for (;; top *= 2) { fflush(NULL); pid_t pid = fork(); if (pid == 0) { const char *sv = PROP; PROP = "none"; LW_OVERRIDE = top; int fa; run_history(P_, 1, ops, nops, cs0, &fa); PROP = sv; _exit(fa < 0 ? 0 : 1); } int st; waitpid(pid, &st, 0); if ((WIFEXITED(st) && WEXITSTATUS(st) == 0) || top > (1L << 24)) break; } top = top + top / 8; }
+                if (m7 && m8) { top = 2048; for (;; top *= 2) { fflush(NULL); pid_t pid = fork(); if (pid == 0) { const char *sv = PROP; PROP = "none"; LW_OVERRIDE = top; int fa; run_history(P_, 1, ops, nops, cs0, &fa); PROP = sv; _exit(fa < 0 ? 0 : 1); } int st; waitpid(pid, &st, 0); vf_discard_log(pid); if ((WIFEXITED(st) && WEXITSTATUS(st) == 0) || top > (1L << 24)) break; } top = top + top / 8; }
             }
             for (long lw = 64; lw <= top; lw += step, idx++) {
                 if (idx % nsl != isl) continue;
@@ -341,7 +341,7 @@ int main(int argc, char **argv) {
     double deadline = atof(arg_str(argc, argv, "--deadline", "1e9")), t0 = now_s(); int timeout = arg_int(argc, argv, "--timeout", 30);
     NALPHA = alphabet(ALPHA, FULL_);
     if (!strcmp(PROP, "C18")) {       /* reference probes from fresh processes */
-        for (int m = 0; m < 2; m++) { pid_t pid = fork(); if (pid == 0) { unsigned long long h = run_probe(P_, m); memcpy((void *)vf_sh->note, &h, sizeof h); _exit(0); } int st; waitpid(pid, &st, 0); memcpy(&PROBE_REF[m], (void *)vf_sh->note, sizeof(unsigned long long)); }
+        for (int m = 0; m < 2; m++) { pid_t pid = fork(); if (pid == 0) { unsigned long long h = run_probe(P_, m); memcpy((void *)vf_sh->note, &h, sizeof h); _exit(0); } int st; waitpid(pid, &st, 0); vf_discard_log(pid); memcpy(&PROBE_REF[m], (void *)vf_sh->note, sizeof(unsigned long long)); }
     }
     op_t cur[16]; long idx = 0; long total = count_or_run(DEPTH_, 0, cur, 0, &idx, 0, 0, 0);
     long per = (total + nsl - 1) / nsl, lo = per * isl, hi = lo + per; if (hi > total) hi = total; if (lo > hi) lo = hi;
@@ -373,7 +373,7 @@ int main(int argc, char **argv) {
                 { unsigned long long hx = run_probe(P_, 1 - MEM_); if (hx != PROBE_REF[1 - MEM_]) { char cs2[64], sig2[64]; snprintf(cs2, sizeof cs2, "pat=%d mem=%d extra=%d x%d", P_, MEM_, ev, rep); snprintf(sig2, sizeof sig2, "C18:probe-differs:other-mode:after-extra%d:mem%d", ev, MEM_); viol(sig2, cs2, "probe in the other memory mode after the extra event differs from the fresh-process probe"); } }
                 if (hp != PROBE_REF[MEM_]) { char cs[64], sig[64]; snprintf(cs, sizeof cs, "pat=%d mem=%d extra=%d x%d", P_, MEM_, ev, rep); snprintf(sig, sizeof sig, "C18:probe-differs:after-extra%d:mem%d", ev, MEM_); viol(sig, cs, "probe after %d x extra event %d (0 singular call, 1 failed allocation, 2 expert driver, 3 other size) differs from the fresh-process probe", rep, ev); }
                 fflush(NULL); _exit(0); }
-            int st; waitpid(pid, &st, 0);
+            int st; waitpid(pid, &st, 0); vf_discard_log(pid);
             if (!(WIFEXITED(st) && WEXITSTATUS(st) == 0)) { G->deaths++; }
         }
     }
